@@ -700,3 +700,31 @@ Section Statements.
       intros rn' H. discriminate.
   Qed.
 End Statements.
+
+(* ------------------------------------------------ push (fetch_refs) -- *)
+
+(* the ref update of a push is conditional on the value the push read at its start:
+   if, when the push finally writes, the ref no longer holds the snapshot value, nothing is
+   written; a name that was absent in the snapshot never overwrites anything *)
+Theorem push_conditional :
+  forall valid v0 st pc n new,
+    valid n = true -> coherent pc st ->
+    let st' := fst (exec valid (push_op v0 n new) st pc) in
+    (forall o, v0 n = Some o -> o <> cur (view st) (target (view st) n) -> st' = st) /\
+    (forall o, v0 n = Some o -> o = cur (view st) (target (view st) n) ->
+       forall x, view st' x = if N.eqb x (target (view st) n) then Some (VSha new) else view st x) /\
+    (v0 n = None -> forall m v, view st m = Some v -> view st' m = Some v).
+Proof.
+  intros valid v0 st pc n new Hv Hc st'. subst st'. unfold push_op.
+  destruct (v0 n) as [o|] eqn:E.
+  - destruct (set_if_equals_cas valid st pc n (Some o) new Hv Hc) as (_ & H1 & H2).
+    split; [|split].
+    + intros o' Ho Hn. assert (Eo : o' = o) by congruence. subst o'. apply (proj2 (H2 o eq_refl Hn)).
+    + intros o' Ho He. assert (Eo : o' = o) by congruence. subst o'.
+      assert (X : Some o = None \/ Some o = Some (cur (view st) (target (view st) n)))
+        by (right; congruence).
+      destruct (H1 X) as (_ & V & _). exact V.
+    + discriminate.
+  - split; [intros o Ho; discriminate|]. split; [intros o Ho; discriminate|].
+    intros _. destruct (add_if_new_never_overwrites valid st pc n new Hc) as (_ & H & _). exact H.
+Qed.
